@@ -36,7 +36,17 @@ func getPrio(g *spec.Grammar) [][]int {
 
 // simGTable runs yaccgo's dense table on tokens given as yaccgo symbol ids.
 func simGTable(gt [][]int, rules []ref.Rule, eof int, tokens []int, maxSteps int) (accept bool, reds []int, fetched int, limit bool) {
-	n := len(gt)
+	return simLookup(len(gt), len(gt[0]), func(s, a int) int { return gt[s][a] }, rules, eof, tokens, maxSteps)
+}
+
+// simLookup runs an LR driver over an arbitrary (state, symbol) -> action function.
+func simLookup(n, nsym int, look func(s, a int) int, rules []ref.Rule, eof int, tokens []int, maxSteps int) (accept bool, reds []int, fetched int, limit bool) {
+	defer func() {
+		if e := recover(); e != nil {
+			accept, limit = false, false
+			reds = append(reds, -999) // lookup panicked: certainly differs from the reference
+		}
+	}()
 	errc, accc := n+100, n+200
 	stack := []int{0}
 	pos := 0
@@ -55,10 +65,10 @@ func simGTable(gt [][]int, rules []ref.Rule, eof int, tokens []int, maxSteps int
 			return false, reds, fetched, true
 		}
 		st := stack[len(stack)-1]
-		if st < 0 || st >= n || la < 0 || la >= len(gt[st]) {
+		if st < 0 || st >= n || la < 0 || la >= nsym {
 			return false, reds, fetched, false
 		}
-		a := gt[st][la]
+		a := look(st, la)
 		switch {
 		case a == errc:
 			return false, reds, fetched, false
@@ -74,7 +84,7 @@ func simGTable(gt [][]int, rules []ref.Rule, eof int, tokens []int, maxSteps int
 			}
 			stack = stack[:len(stack)-len(rules[r].Rhs)]
 			top := stack[len(stack)-1]
-			to := gt[top][rules[r].Lhs]
+			to := look(top, rules[r].Lhs)
 			if to <= 0 || to >= n {
 				return false, reds, fetched, false
 			}
@@ -137,7 +147,13 @@ func prescreen(g *spec.Grammar, r *rand.Rand) [][]int {
 			continue
 		}
 		acc, reds, fetched, lim := simGTable(b.Root.GTable, rgY.Rules, 1, ry, 6000)
-		if lim || acc != sim.Accept || fmt.Sprint(reds) != fmt.Sprint(sim.Reds) || fetched != sim.Fetched {
+		differs := lim || acc != sim.Accept || fmt.Sprint(reds) != fmt.Sprint(sim.Reds) || fetched != sim.Fetched
+		if !differs && b.Root.NeedPacked {
+			// the packed arrays, read the documented way
+			acc, reds, fetched, lim = simLookup(len(b.Root.GTable), len(b.Root.GTable[0]), func(s, a int) int { return packedLookup(b, s, a) }, rgY.Rules, 1, ry, 6000)
+			differs = lim || acc != sim.Accept || fmt.Sprint(reds) != fmt.Sprint(sim.Reds) || fetched != sim.Fetched
+		}
+		if differs {
 			res = append(res, in)
 			if len(res) >= 40 {
 				break
